@@ -25,7 +25,7 @@ from typing import Any, Dict, List, Optional, Tuple
 from .facts import Facts, FuncInfo, Module, AnalysisError, norm, literal_const, _NOCONST
 
 MAX_PATHS = 4000
-MAX_INLINE = 5
+MAX_INLINE = 9
 
 PURE_BUILTINS = {'isinstance', 'len', 'callable', 'issubclass', 'hasattr', 'id', 'type'}
 
@@ -99,6 +99,20 @@ class Closure:
 
     def __repr__(self):
         return '<closure %s>' % self.qual
+
+
+def has_live(v) -> bool:
+    """Does the value contain an object the evaluator models by reference (closure, known list/dict spine)?"""
+    if isinstance(v, (ListVal, DictVal, Closure)):
+        return True
+    if isinstance(v, tuple):
+        return any(has_live(x) for x in v)
+    return False
+
+
+def keep(v):
+    """freeze(v) unless that would lose a closure or a known spine held inside."""
+    return v if has_live(v) else freeze(v)
 
 
 def freeze(v, _depth=0):
@@ -907,7 +921,7 @@ class SymExec:
                     self.emit('exc_edge', st, types=tuple(caught), handler=H, subs=())
                     self.ctx.append(('finally', st))
                     try:
-                        res_ = self._inline_call(exit_q, [cm, ('unknown', 'exc-type'), exc_, ('unknown', 'traceback')], [], st,
+                        res_ = self._inline_call(exit_q, [cm, ('ref', caught[0][0], caught[0][1]), exc_, ('unknown', 'traceback')], [], st,
                                                  ('attr', fcm, '__exit__'))
                     finally:
                         self.ctx.pop()
@@ -2267,7 +2281,34 @@ class SymExec:
     def _dynamic_cls(self, f: Frame) -> str:
         return f.cls  # the static class; receivers are analysed per class
 
+    def _module_callable(self, ff):
+        """For a module-level name bound at import time to an object the evaluator can call: (kind, value).
+        kind 'closure': a function built by a factory; kind 'instance': an instance of a package class with __call__."""
+        if not (isinstance(ff, tuple) and ff[:2] == ('ref', 'modvar')) or self.fi.qual.endswith('.<module>'):
+            return None
+        mod, _, var = ff[2].rpartition('.')
+        m = self.facts.modules.get(mod)
+        if m is None or var not in m.assigns or len(m.assigns[var]) != 1 or not isinstance(m.assigns[var][0], ast.Call):
+            return None
+        if any(isinstance(n, ast.Global) and var in n.names for n in ast.walk(m.tree)):
+            return None
+        v = exec_module_body(self.facts, m).get(var)
+        if isinstance(v, Closure):
+            return ('closure', v)
+        if isinstance(v, tuple) and v[:1] == ('new',) and v[1] in self.facts.classes:
+            cq = self.facts.find_method(v[1], '__call__')
+            if cq and cq in self.facts.functions:
+                return ('instance', v, cq)
+        return None
+
     def call(self, func, args, kwargs, node, fr: Frame):
+        mc = self._module_callable(freeze(func)) if not isinstance(func, (Closure, PartialVal)) else None
+        if mc is not None and self.inline and len(self.stack) < MAX_INLINE:
+            if mc[0] == 'closure':
+                return self.call(mc[1], args, kwargs, node, fr)
+            key_ = mc[2] + '@' + freeze(func)[2]          # recursion is per callable object, not per class
+            if key_ not in self.stack:
+                return self._inline_call(mc[2], [mc[1]] + list(args), kwargs, node, ('attr', freeze(func), '__call__'), stack_key=key_)
         if isinstance(func, PartialVal):
             return self.call(func.func, list(func.args) + list(args), list(func.kwargs) + list(kwargs), node, fr)
         ff = freeze(func)
@@ -2301,6 +2342,15 @@ class SymExec:
                 k = self._isinstance(args[0], fargs[1])
                 if k is not None:
                     return ('const', k)
+            if name == 'issubclass' and len(args) == 2 and isinstance(fargs[0], tuple) and fargs[0][:1] == ('ref',) \
+                    and fargs[0][1] in ('builtin', 'ext', 'cls'):
+                bases_ = [fargs[1]] if not (isinstance(fargs[1], tuple) and fargs[1][:1] == ('tuple',)) else list(fargs[1][1:])
+                if all(isinstance(b_, tuple) and b_[:1] == ('ref',) and b_[1] in ('builtin', 'ext', 'cls') for b_ in bases_):
+                    vs_ = [self.exc_subclass((fargs[0][1], fargs[0][2]), (b_[1], b_[2])) for b_ in bases_]
+                    if any(v_ is True for v_ in vs_):
+                        return ('const', True)
+                    if all(v_ is False for v_ in vs_):
+                        return ('const', False)
             def spine(a):
                 if isinstance(a, ListVal) and a.concrete():
                     return list(a.elts)
@@ -2338,7 +2388,7 @@ class SymExec:
             if name == 'list' and len(args) == 1 and isinstance(args[0], tuple) and args[0] and args[0][0] == 'tuple':
                 return ListVal(list(args[0][1:]), self.fresh())
             if name == 'tuple' and len(args) == 1 and isinstance(args[0], ListVal):
-                return ('tuple',) + tuple(freeze(x) for x in args[0].elts)
+                return ('tuple',) + tuple(keep(x) for x in args[0].elts)
             if name == 'tuple' and len(args) == 1 and isinstance(args[0], tuple) and args[0] and args[0][0] == 'tuple':
                 return args[0]
             if name in ('list', 'tuple') and len(args) == 1 and isinstance(args[0], ListVal) and name == 'list':
@@ -2370,6 +2420,22 @@ class SymExec:
         # ---- the operator module spells the operators as functions
         if isinstance(ff, tuple) and ff[:2] == ('ref', 'ext') and ff[2].startswith('operator.') and not kwargs:
             name = ff[2].split('.', 1)[1]
+            # operator.getitem / setitem / delitem / contains spell the subscript statements as calls
+            if name == 'getitem' and len(args) == 2:
+                return self.subscript(args[0], args[1], node, fr)
+            if name == 'setitem' and len(args) == 3:
+                self.emit('store_sub', node, obj=args[0], index=args[1], value=args[2], handlers=self._handlers())
+                return ('const', None)
+            if name == 'delitem' and len(args) == 2:
+                self.emit('del_sub', node, obj=args[0], index=args[1], handlers=self._handlers())
+                return ('const', None)
+            if name == 'contains' and len(args) == 2:
+                return self.compare('in', args[1], args[0], node)
+            if name == 'not_' and len(args) == 1:
+                k_ = self.known_truth(args[0])
+                return ('const', not k_) if k_ is not None else ('not', freeze(args[0]))
+            if name == 'truth' and len(args) == 1:
+                return ('pcall', 'bool', (freeze(args[0]),))
             binops = {'add': '+', 'sub': '-', 'mul': '*', 'truediv': '/', 'floordiv': '//', 'mod': '%', 'pow': '**',
                       'lshift': '<<', 'rshift': '>>', 'or_': '|', 'and_': '&', 'xor': '^', 'concat': '+'}
             cmps = {'eq': '==', 'ne': '!=', 'lt': '<', 'le': '<=', 'gt': '>', 'ge': '>=', 'is_': 'is', 'is_not': 'is not'}
@@ -2521,7 +2587,7 @@ class SymExec:
         eid_holder.d['result'] = result
         return result
 
-    def _inline_call(self, qual, args, kwargs, node, func_term):
+    def _inline_call(self, qual, args, kwargs, node, func_term, stack_key=None):
         fi = self.facts.functions[qual]
         callee = Frame(fi.module, qual, fi.cls)
         ev_ = self.emit('call', node, func=freeze(func_term), args=tuple(freeze(a) for a in args), kwargs=tuple((k, freeze(v)) for k, v in kwargs),
@@ -2532,7 +2598,7 @@ class SymExec:
             ev_.d['result'] = res
             return res
         ev_.d['inlined'] = True
-        self.stack.append(qual)
+        self.stack.append(stack_key or qual)
         self.fn_stack.append(qual)
         self.ctx.append(('inline', ev_.eid, qual))
         try:
@@ -2647,7 +2713,7 @@ class SymExec:
                 fields_: Dict[str, Any] = {}
                 for ev_ in self.events[before:]:
                     if ev_.kind == 'store_attr' and freeze(ev_.obj) == obj:
-                        fields_[ev_.attr] = freeze(ev_.value)
+                        fields_[ev_.attr] = keep(ev_.value)      # closures / spines stored on the object stay callable / iterable
                         ev_.d['init_field'] = True
                 return ('new', qual, tuple(fields_.items()), eid)
         if not is_dc or init:
@@ -2739,6 +2805,24 @@ def _ex_Call(self: SymExec, e, fr):
             kw0 = [(kw.arg, self.ev(kw.value, fr)) for kw in e.keywords]
             recv0.callbacks.append((args0[0], args0[1:], kw0, e))
             return args0[0]
+    if isinstance(e.func, ast.Attribute) and e.func.attr in ('items', 'keys', 'values') and not e.args and not e.keywords:
+        recv = self.ev(e.func.value, fr)
+        if isinstance(recv, DictVal) and all(it[0] != 'dstar' for it in recv.items):
+            # a dict whose entries are all known: its views in insertion order (later duplicates of a constant key win)
+            seen_, order_ = {}, []
+            for k_, v_ in recv.items:
+                fk = freeze(k_)
+                if fk not in seen_:
+                    order_.append(fk)
+                seen_[fk] = (k_, v_)
+            pairs_ = [seen_[fk] for fk in order_]
+            if e.func.attr == 'items':
+                return ListVal([('tuple', keep(k_), keep(v_)) for k_, v_ in pairs_], self.fresh())
+            if e.func.attr == 'keys':
+                return ListVal([keep(k_) for k_, _ in pairs_], self.fresh())
+            return ListVal([keep(v_) for _, v_ in pairs_], self.fresh())
+        func = self.attr(recv, e.func.attr, e.func, fr)
+        return self.call(func, [], [], e, fr)
     if isinstance(e.func, ast.Attribute) and e.func.attr == 'update' and (len(e.args) + len(e.keywords)) >= 1:
         recv = self.ev(e.func.value, fr)
         if isinstance(recv, DictVal):
